@@ -45,6 +45,8 @@ def apply_event(rig, ev):
         rig.server_msg(M.PotentialParents.Response([PotentialParent(n, f'10.9.0.{NID[n]}', 2234) for n in ev[1]]))
     elif k == 'PI':
         rig.peer_init(ev[1], ev[2], bool(ev[3]), hold=(len(ev) > 4 and ev[4] == 'hold'))
+    elif k == 'PF':          # the outgoing connection attempts to this proposed parent fail (harness-only: no model event)
+        rig.fail_connects(f'10.9.0.{NID[ev[1]]}')
     elif k == 'CR':          # the slow peer on this connection reads again (harness-only: no model event)
         rig.child_release(ev[1])
     elif k == 'BL':
@@ -164,6 +166,34 @@ def gen_and_run(rng, n, style):
                 do(['PI', c, rng.choice(PEER_NAMES), False])
             do(['CR', c1])
             n += len(events)
+        if style == 'relogin':
+            # a session starts while a parent (and children) already exist: the real position must be advertised again
+            a = next_c[0]; next_c[0] += 1
+            do(['PI', a, rng.choice(PEER_NAMES), True])
+            do(['BL', a, rng.choice([1, 3, 7])], src=a)
+            do(['BR', a, rng.choice(['root1', 'root2'])], src=a)
+            for _ in range(rng.choice([0, 1, 2])):
+                c = next_c[0]; next_c[0] += 1
+                do(['PI', c, rng.choice(PEER_NAMES), False])
+            do(['SD'])
+            k = rng.random()
+            if k < 0.3:
+                do(['BL', a, rng.choice([2, 5])], src=a)       # the parent changes its level while we are logged out
+            elif k < 0.5:
+                do(['CC', a])
+            do(['SI'])
+            n += len(events)
+        if style == 'ppfail':
+            # the server proposes parents, the connection attempts to (some of) them fail, then they connect to us
+            props = rng.sample(PEER_NAMES, rng.choice([1, 2]))
+            do(['PP', props], src='server')
+            for nm in props:
+                if rng.random() < 0.7:
+                    do(['PF', nm])
+            for nm in props:
+                c = next_c[0]; next_c[0] += 1
+                do(['PI', c, nm, False])
+            n += len(events)
         if style == 'reparent':
             # parent A with children, A is lost, B with the SAME level and root becomes the parent
             lvl, root = rng.choice([1, 3, 7]), rng.choice(['root1', 'root2'])
@@ -227,6 +257,9 @@ def gen_and_run(rng, n, style):
             elif r < 0.62 and live:
                 pool = [c for c in live if c == st['parent']] if (st['parent'] in live and rng.random() < 0.5) else live
                 do(['CC', rng.choice(pool)])
+            elif r < 0.66 and rig.pending_connects and not rig.held:
+                host = rng.choice(sorted(rig.pending_connects))
+                do(['PF', NAMES[int(host.rsplit('.', 1)[1])]])
             elif r < 0.70 and srv_ok:
                 do(['PP', [rng.choice(PEER_NAMES) for _ in range(rng.choice([1, 1, 2, 3, 21]))]], src='server')
             elif r < 0.80 and srv_ok:
@@ -262,10 +295,17 @@ def gen_and_run(rng, n, style):
 # monitor: the property text on an implementation trace
 # ------------------------------------------------------------------------------------------
 
-def expected_position(o):
-    """position derived from the current parent, from the implementation's own peer table"""
+def expected_position(o, ann=None):
+    """position derived from the current parent: its level + 1 and its root, as the parent ANNOUNCED them (`ann`: connection ->
+    [level, root] folded from the BranchLevel/BranchRoot messages it sent; level 0 means the peer is its own root).  Without
+    `ann` the implementation's own peer table is used."""
     if o['parent'] is None:
         return (0, 'me')
+    if ann is not None and o['parent'] in ann:
+        l, r = ann[o['parent']]
+        if r == 'me':
+            return (0, 'me')
+        return (None if l is None else l + 1, r)
     for c, n, l, r in o['peers']:
         if c == o['parent']:
             if r == 'me':
@@ -290,7 +330,25 @@ def monitor(events, obs):
     slow_dirty = set()        # children whose _add_child was still suspended in its first write when the position changed
     prev = {'parent': None, 'children': [], 'peers': [], 'cands': [], 'accept': True, 'max': 5, 'live': [], 'session': False}
     pmin = pratio = None
+    from collections import deque
+    from aioslsk.constants import POTENTIAL_PARENTS_CACHE_SIZE
+    proposed = deque(maxlen=POTENTIAL_PARENTS_CACHE_SIZE)   # names the server proposed as potential parents (the monitor's own record)
+    ann = {}                  # connection -> [level, root] as announced by the peer
+    names = {}
+    ppos = (0, 'me')
     for i, (ev, o) in enumerate(zip(events, obs)):
+        proposed_before = list(proposed)
+        if ev[0] == 'PP':
+            proposed.extend(ev[1])
+        elif ev[0] == 'PI':
+            names[ev[1]] = ev[2]
+            ann[ev[1]] = [None, None]
+        elif ev[0] == 'BL' and ev[1] in prev['live']:
+            ann.setdefault(ev[1], [None, None])[0] = ev[2]
+            if ev[2] == 0:
+                ann[ev[1]][1] = names.get(ev[1])      # level 0: the peer is the root of its branch
+        elif ev[0] == 'BR' and ev[1] in prev['live']:
+            ann.setdefault(ev[1], [None, None])[1] = ev[2]
         # --- child limit as specified (C13_child_limit_spec): threshold and quotient
         if ev[0] == 'MS':
             pmin = ev[1]
@@ -362,7 +420,7 @@ def monitor(events, obs):
                     add('child-admitted-while-not-accepting', 'child accepted while acceptance is off', {'step': i, 'conn': c})
                 if not len(prev['children']) < prev['max']:
                     add('child-admitted-above-max', f"child accepted with {len(prev['children'])} children, max {prev['max']}", {'step': i, 'conn': c})
-                if nm in prev['cands']:
+                if nm in proposed_before:
                     add('potential-parent-admitted-as-child', 'a peer proposed as potential parent was taken as child', {'step': i, 'conn': c, 'name': nm})
                 if not (ev[0] == 'PI' and ev[1] == c and not ev[3]):
                     add('child-gained-without-incoming-connection', 'child added by an unexpected event', {'step': i, 'event': ev})
@@ -371,8 +429,7 @@ def monitor(events, obs):
         if len(ch) > max(o['max'], 0) and len(ch) > len(prev['children']):
             add('children-exceed-max', f"{len(ch)} children with max {o['max']} after a child was added", {'step': i, 'children': ch, 'max': o['max']})
         # --- bookkeeping for the classification of stale announcements
-        pos = expected_position(o)
-        ppos = expected_position(prev)
+        pos = expected_position(o, ann)
         if pos != ppos and not o['session']:
             dirty.update(ch)
         if pos != ppos:
@@ -399,6 +456,7 @@ def monitor(events, obs):
                     add(F27_KEY if c in dirty else F28_KEY if f28 else 'child-told-stale-position',
                         'branch level/root last told to a child differ from the position derived from the parent',
                         {'step': i, 'conn': c, 'told': list(g), 'position': list(pos)})
+        ppos = pos
         prev = o
     return out
 
@@ -433,7 +491,7 @@ def ev_coq(ev):
         return f'OwnStats {ev[1]}%Z'
     if k == 'RD':
         return 'ResetDistributed'
-    if k == 'CR':
+    if k in ('CR', 'PF'):
         return 'PotentialParents []'      # no-op of the model: nothing may change when a slow peer resumes
     if k == 'H':
         return 'Hold'
@@ -570,7 +628,7 @@ def run(run: Run):
 
     n_hist = 260 if run.tier == 'quick' else 2600
     cases = []
-    styles = ['mixed', 'tree', 'hold', 'treehold', 'children', 'reparent', 'tree', 'f10', 'slots', 'session', 'plain', 'treehold', 'mixed', 'nologin']
+    styles = ['mixed', 'tree', 'hold', 'treehold', 'children', 'reparent', 'tree', 'f10', 'slots', 'ppfail', 'relogin', 'session', 'plain', 'treehold', 'mixed', 'nologin']
     for i in range(n_hist):
         style = styles[i % len(styles)]
         n = run.rng.randrange(3, 12 if run.tier == 'quick' else 16)
